@@ -522,7 +522,7 @@ Vec3_<T> Matrix4_<T>::eulerAngles(int a0, int a1, int a2) const
 {
 	T r0, r1, r2;
 	// at gimbal lock the key element is +-1 only up to rounding: elements a few ulps below 1 are degenerate too
-	const T one = 1 - (sizeof(T) == sizeof(float) ? T(1e-6) : T(1e-14));
+	const T one = 1 - (sizeof(T) == sizeof(float) ? T(1e-6) : T(2e-15));
 
 	if (a0 != a2)
 	{
